@@ -236,7 +236,7 @@ pub fn run(tier: &str) -> i32 {
         let txt = std::fs::read_to_string(verif_dir().join("fixtures/ctr_wrap.json")).unwrap_or_else(|_| machinery_error("missing fixtures/ctr_wrap.json"));
         let fx: Value = serde_json::from_str(&txt).unwrap_or_else(|_| machinery_error("ctr_wrap.json is not JSON"));
         let mut n = 0;
-        for (p, field) in [(Proto::V3L, "nonce"), (Proto::V1L, "seed")] {
+        for (p, field) in [(Proto::V3L, "nonce"), (Proto::V1L, "seed")].into_iter().filter(|(p, _)| p.enabled()) {
             let key = &domains::key_pool(p)[0];
             for e in fx[p.name()].as_array().cloned().unwrap_or_default() {
                 let Some(seed) = e[field].as_str().and_then(b64::unhex) else { continue };
